@@ -438,3 +438,67 @@ func TestC05_Substitution(t *testing.T) {
 		r.Case(text+"\x00"+root.String()+o.String(), nt, sampleOf(text, root, kind), "kind:"+kind, "unknown:"+string(k))
 	})
 }
+
+// TestC05_AfterQuantifier: a selector whose leaf key is absent from a map, evaluated in the same
+// call AFTER a quantifier that bound a variable of the same name as the selector's first part has
+// finished (decisively at its first element, or after its last): outside the braces the name is
+// the datum's key again, and the absent key under it follows the table (exhaustive).
+func TestC05_AfterQuantifier(t *testing.T) {
+	r := rec(t, "C05", c05Rule+"; TestC05_AfterQuantifier: (quantifier binding x, early exit or not) and/or <operator on x.absent>, x being a map of the datum; all operators, both connectives, unknown value or not (exhaustive)")
+	r.Exhaustive = true
+	r.ExhaustiveOf = "quantifier (any/all x early/late exit x binding mode) x connective x operator on the absent leaf x unknown value"
+	strT := uni.Scalar(uni.KString)
+	mkm := func(kv ...interface{}) *uni.Node {
+		m := &uni.Node{T: uni.MapOf(strT, uni.Iface())}
+		for i := 0; i < len(kv); i += 2 {
+			m.Keys = append(m.Keys, uni.Str(kv[i].(string)))
+			m.Elems = append(m.Elems, uni.InIface(kv[i+1].(*uni.Node)))
+		}
+		return m
+	}
+	list := uni.List(uni.SliceOf(uni.Iface()), uni.InIface(mkm("k", uni.Int(uni.KInt, 1))), uni.InIface(mkm("k", uni.Int(uni.KInt, 2))))
+	root := mkm("list", list, "x", mkm("a", uni.Int(uni.KInt, 1)), "i", mkm("a", uni.Int(uni.KInt, 1)))
+	rend := bx.NewRenderer(bx.Zero{})
+	rend.NoLayout = true
+	n := 0
+	for _, name := range []string{"x", "i"} {
+		for _, lit := range []string{"1", "2", "3"} { // decisive at the first element, at the last, never
+			for _, all := range []bool{false, true} {
+				for _, mode := range []bx.BindMode{bx.BindValue, bx.BindBoth, bx.BindDefault} {
+					q := &bx.Quant{All: all, Sel: bx.Sel{Parts: []string{"list"}}, Mode: mode, Value: name, Body: &bx.Match{Sel: bx.Sel{Parts: []string{name, "k"}}, Op: map[bool]bx.Op{false: bx.OpEq, true: bx.OpNe}[all], Lit: lit}}
+					if mode == bx.BindBoth {
+						q.Index = "j"
+					}
+					for op := bx.OpEq; op < bx.NumOps; op++ {
+						leaf := &bx.Match{Sel: bx.Sel{Parts: []string{name, "k"}}, Op: op, Lit: "1"}
+						for _, and := range []bool{true, false} {
+							for _, unk := range []*uni.Node{nil, uni.Int(uni.KInt, 5)} {
+								var e bx.Expr = &bx.Or{L: q, R: leaf}
+								if and {
+									e = &bx.And{L: q, R: leaf}
+								}
+								o := Opts{}
+								if unk != nil {
+									o.HasUnknown, o.Unknown = true, unk
+								}
+								text, _ := rend.Render(e)
+								c := newEvalCase(text, e, root, o)
+								want, got, _ := c01Check(t, "C05", "TestC05_AfterQuantifier", c)
+								// and the table itself, stated directly for the leaf on its own
+								if unk == nil {
+									lt, _ := rend.Render(leaf)
+									if lo := runImpl(lt, root.Interface(), o).Outcome(); lo != dispositionTable[op] {
+										violation(t, "C05", "TestC05_AfterQuantifier", c, "%s (x.k absent from the map x): got %s, the table says %s", lt, lo, dispositionTable[op])
+									}
+								}
+								n++
+								r.Case(text+o.String(), true, map[string]string{"expr": text, "outcome": got.String(), "ref": want.String()}, "op:"+op.String())
+							}
+						}
+					}
+				}
+			}
+		}
+	}
+	t.Logf("cases: %d", n)
+}
